@@ -45,19 +45,31 @@ JudgeC09 ==
           \/ Say([g |-> G.name, p |-> "C09", what |-> "predict", n |-> n,
                   spec |-> A.predict[n], impl |-> SeqToSet(G.lel.predict[n])])
 
+\* E012 is compared per BRANCH of the left-recursive rule (which construct of the branch carries
+\* the primary span is not part of the property): a node is replaced by the branch that contains it
+RECURSIVE BranchAncestor(_, _, _)
+BranchAncestor(G, P, n) ==
+  IF P[n] = 0 THEN n ELSE IF P[P[n]] = 0 THEN n ELSE BranchAncestor(G, P, P[n])
+NormPair(G, P, x) == IF x[1] = "E012" THEN <<x[1], BranchAncestor(G, P, x[2])>> ELSE x
+\* an empty-word operator among the operands of the branch: the pinned implementation picks the
+\* operator of such a branch inconsistently (known finding F17)
+EpsOpBranch(G, n) == K(G, n) = "cat" /\ \E i \in DOMAIN C(G, n) : K(G, C(G, n)[i]) \in {"rename", "elide", "act"}
+
 JudgeC10 ==
   LET G == Gs[g]
       A == Analysis(G)
       Own == OwnerMap(G, A.parent)
-      must == ConflictsMust(G, A.first, A.predict, A.follow, Own)
-      may  == ConflictsMay(G, A.first, A.predict, A.follow, Own)
-      impl == {<<G.lel.conf[i][1], G.lel.conf[i][2]>> : i \in DOMAIN G.lel.conf}
-      narrow == NarrowE012(G, A.predict, A.follow, Own)
+      must == {NormPair(G, A.parent, x) : x \in ConflictsMust(G, A.first, A.predict, A.follow, Own)}
+      may  == {NormPair(G, A.parent, x) : x \in ConflictsMay(G, A.first, A.predict, A.follow, Own)}
+      impl == {NormPair(G, A.parent, <<G.lel.conf[i][1], G.lel.conf[i][2]>>) : i \in DOMAIN G.lel.conf}
+      narrow == {NormPair(G, A.parent, x) : x \in NarrowE012(G, A.predict, A.follow, Own)}
   IN /\ \A x \in must \ impl :
           Say([g |-> G.name, p |-> "C10", what |-> "missing", code |-> x[1], n |-> x[2],
-               cause |-> IF x[1] = "E012" /\ x \notin narrow THEN "inrule_selfref" ELSE "other"])
+               cause |-> IF x[1] = "E012" /\ EpsOpBranch(G, x[2]) THEN "epsop_in_left_rec_branch"
+                         ELSE IF x[1] = "E012" /\ x \notin narrow THEN "inrule_selfref" ELSE "other"])
      /\ \A x \in impl \ may :
-          Say([g |-> G.name, p |-> "C10", what |-> "spurious", code |-> x[1], n |-> x[2]])
+          Say([g |-> G.name, p |-> "C10", what |-> "spurious", code |-> x[1], n |-> x[2],
+               cause |-> IF x[1] = "E012" /\ x[2] \in Nodes(G) /\ EpsOpBranch(G, x[2]) THEN "epsop_in_left_rec_branch" ELSE ""])
 
 JudgeC14 ==
   LET G == Gs[g]
